@@ -3,6 +3,7 @@ package main
 import (
 	"fmt"
 	"go/token"
+	"go/types"
 	"sort"
 	"strings"
 
@@ -376,6 +377,58 @@ func ruleRefused(c *Ctx, id string) {
 		why := rf.pub
 		if why == "" {
 			why = rf.order
+		}
+		// and the caller is told: the function that holds the call answers true only where the journal did
+		if f.Signature.Results().Len() == 1 {
+			if bt, isB := f.Signature.Results().At(0).Type().Underlying().(*types.Basic); isB && bt.Kind() == types.Bool {
+				callV, _ := rf.call.(ssa.Value)
+				accepted := func(Subst) func(Cond) (bool, bool) {
+					return func(cd Cond) (bool, bool) {
+						if cd.Op == token.ILLEGAL && callV != nil && stripConv(cd.X) == callV {
+							return true, true
+						}
+						return false, false
+					}
+				}
+				okAll, nT := true, 0
+				seenV := map[ssa.Value]bool{}
+				var walk func(v ssa.Value, from, to *ssa.BasicBlock, d int)
+				walk = func(v ssa.Value, from, to *ssa.BasicBlock, d int) {
+					if ph, isP := v.(*ssa.Phi); isP && d < 8 {
+						if seenV[ph] {
+							return
+						}
+						seenV[ph] = true
+						for i, e := range ph.Edges {
+							walk(e, ph.Block().Preds[i], ph.Block(), d+1)
+						}
+						return
+					}
+					if bv, isb := constBool(v); isb && bv {
+						nT++
+						at := from
+						if at == nil {
+							return
+						}
+						if !edgeGuardedX(f, from, to, accepted, nil, 0) {
+							okAll = false
+						}
+					}
+				}
+				for _, b := range f.Blocks {
+					if r, isR := b.Instrs[len(b.Instrs)-1].(*ssa.Return); isR && len(r.Results) == 1 {
+						if bv, isb := constBool(r.Results[0]); isb && bv {
+							nT++
+							if !guardedByX(f, b, accepted, nil, 0) {
+								okAll = false
+							}
+							continue
+						}
+						walk(r.Results[0], nil, nil, 0)
+					}
+				}
+				R.Check(okAll, id, key+"|a refused commit is reported", pos, "the function answers the constant true only on the side where jrnl.CommitWait answered true", fmt.Sprintf("%d constant true result(s), all behind the accepted side", nT), "the function answers true on a path on which the journal refused the transaction: the handler reports NFS3_OK for an operation that was undone - an acknowledged operation is lost without a crash")
+			}
 		}
 		R.Check(rf.pub == "" && rf.order == "", id, key+"|refused commit publishes nothing", pos, "PostCommit (frees become reusable) runs only when the journal accepted the commit; otherwise the locks are released only after the invalidation", "holds on every explored path", "frees of a transaction that was never committed are applied to the in-memory allocators (the blocks are still in use on disk), or the locks are released while the cache still holds the uncommitted inodes ("+why+")")
 	}
